@@ -3,6 +3,7 @@ returns a *real* asyncio.StreamReader plus a FakeWriter; everything above it
 (Connection, pools, Stream, parsers) is the real wpull code.
 """
 import asyncio
+import re
 
 
 class FakeTransport:
@@ -167,6 +168,13 @@ class Net:
             self._orig = None
 
     async def open_connection(self, host=None, port=None, **kw):
+        # what the socket layer does with arguments no address can have
+        if not isinstance(port, int) or not 0 <= port <= 65535:
+            raise OverflowError('connect(): port must be 0-65535.')
+        if isinstance(host, str) and re.fullmatch(r'[0-9.]+', host) and \
+                any(int(x) > 255 for x in host.split('.') if x):
+            import socket
+            raise socket.gaierror(-2, 'Name or service not known')
         idx = len(self.conns)
         conn = FakeConn(self, idx, host, port)
         self.conns.append(conn)
